@@ -170,7 +170,7 @@ template <class F> bool throwsBpp(F f, string& what) {
 }  // namespace
 
 // =================================================================================================== normal
-LAW(N1_pnorm, RC, 150000, 4000000, 8, "z within 2 grid steps (1/32) of a branch switch of the implementation, or tail probability < 1e-6") {
+LAW(N1_pnorm, RC, 150000, 4000000, 8, "z within 2 grid steps (1/32) of a branch switch of the implementation, or tail probability < 1e-6", 120) {
   static const double SW[] = {0.67448975, -0.67448975, std::sqrt(32.0), -std::sqrt(32.0), -37.5193, 8.2924};
   double z, z2;
   switch (c.weighted({4, 3, 3, 1, 1})) {
@@ -215,7 +215,7 @@ LAW(N1_pnorm, RC, 150000, 4000000, 8, "z within 2 grid steps (1/32) of a branch 
   }
 }
 
-LAW(N2_norm_locscale, RC, 60000, 1500000, 8, "standardised argument in a tail (probability < 1e-6) or sigma != 1") {
+LAW(N2_norm_locscale, RC, 60000, 1500000, 8, "standardised argument in a tail (probability < 1e-6) or sigma != 1", 120) {
   double mu = c.flag() ? static_cast<double>(c.zig(1000)) : c.real(-1e3, 1e3);
   double sigma = genRate(c);
   double zt = c.flag() ? static_cast<double>(c.zig(2560)) / 64.0 : c.real(-40, 40);
@@ -239,7 +239,7 @@ LAW(N2_norm_locscale, RC, 60000, 1500000, 8, "standardised argument in a tail (p
   CHECK(ex <= 0, "qNorm(p,mu,sigma) = " << vf::dec(q) << " standardises to " << vf::dec(back) << " which is further than 5e-8 from the p-quantile, p=" << vf::dec(pp.p));
 }
 
-LAW(N3_qnorm, RC, 150000, 4000000, 8, "p within 4 ulps of 0.5 (tail switch), or p < 1e-5 / p > 1-1e-5, or ulp-adjacent successor") {
+LAW(N3_qnorm, RC, 150000, 4000000, 8, "p within 4 ulps of 0.5 (tail switch), or p < 1e-5 / p > 1-1e-5, or ulp-adjacent successor", 120) {
   PP pp = genProb(c, false);
   double p = pp.p;
   c.desc << "qNorm(p) p=" << vf::dec(p) << " successor " << vf::dec(pp.p2);
@@ -266,7 +266,7 @@ LAW(N3_qnorm, RC, 150000, 4000000, 8, "p within 4 ulps of 0.5 (tail switch), or 
   }
 }
 
-LAW(N4_qnorm_signal, RC, 8000, 200000, 8, "every case (probability outside ]0,1[)") {
+LAW(N4_qnorm_signal, RC, 8000, 200000, 8, "every case (probability outside ]0,1[)", 120) {
   double p;
   switch (c.weighted({3, 2, 2, 2})) {
     case 0: { static const double B[] = {0.0, 1.0, -1.0, 2.0, -1e-300, 1 + EPS, 1e-21, 1e-300, 5e-324, -0.5, 1.5, -1e6, 1e6}; p = B[c.below(13)]; break; }
@@ -290,7 +290,7 @@ LAW(N4_qnorm_signal, RC, 8000, 200000, 8, "every case (probability outside ]0,1[
 }
 
 // =================================================================================================== gamma / chi-square
-LAW(G1_gamma_cdf, RC, 150000, 4000000, 12, "shape < 1, or argument within 2 grid steps / 3 ulps of the series / continued-fraction switch, or tail probability < 1e-6") {
+LAW(G1_gamma_cdf, RC, 150000, 4000000, 12, "shape < 1, or argument within 2 grid steps / 3 ulps of the series / continued-fraction switch, or tail probability < 1e-6", 120) {
   double a = genShape(c, 0.05, 200);
   double sw = a > 1 ? a : 1;  // continued fraction iff x > 1 and x >= a
   double top = 50 * sw;
@@ -337,7 +337,7 @@ LAW(G1_gamma_cdf, RC, 150000, 4000000, 12, "shape < 1, or argument within 2 grid
   if (x2 >= x) CHECK(Fg2 >= Fg - 2 * tol::GAMMA, "pGamma decreases: at " << vf::dec(x) << " " << vf::dec(Fg) << ", at " << vf::dec(x2) << " " << vf::dec(Fg2));
 }
 
-LAW(G2_gamma_identities, RC, 100000, 2500000, 12, "shape < 1 or argument beyond the series / continued-fraction switch") {
+LAW(G2_gamma_identities, RC, 100000, 2500000, 12, "shape < 1 or argument beyond the series / continued-fraction switch", 120) {
   double a = genShape(c, 0.05, 199);
   double sw = a > 1 ? a : 1;
   double t;
@@ -372,7 +372,7 @@ LAW(G2_gamma_identities, RC, 100000, 2500000, 12, "shape < 1 or argument beyond 
   CHECK(fabsl((LD)RT::lnGamma(a) - lg) <= 16 * EPS * fabsl(lg) + 4 * EPS, "lnGamma(" << vf::dec(a) << ") = " << vf::dec(RT::lnGamma(a)) << " but lgammal gives " << static_cast<double>(lg));
 }
 
-LAW(G3_qchisq, RC, 120000, 3000000, 12, "df < 2 (shape < 1), or p < 1e-5 / p > 1-1e-5, or (p,df) within 3 ulps of a branch switch of AS91") {
+LAW(G3_qchisq, RC, 120000, 3000000, 12, "df < 2 (shape < 1), or p < 1e-5 / p > 1-1e-5, or (p,df) within 3 ulps of a branch switch of AS91", 120) {
   double nu = genShape(c, 0.1, 400, {0.32, vf::ulpStep(0.32, 1), vf::ulpStep(0.32, -1), 0.2, 4, 30});
   PP pp = genProb(c, true);
   bool seeded = false;
@@ -416,7 +416,7 @@ LAW(G3_qchisq, RC, 120000, 3000000, 12, "df < 2 (shape < 1), or p < 1e-5 / p > 1
   }
 }
 
-LAW(G4_gamma_signals, RC, 12000, 300000, 10, "every case (an argument outside the domain)") {
+LAW(G4_gamma_signals, RC, 12000, 300000, 10, "every case (an argument outside the domain)", 120) {
   int kind = static_cast<int>(c.below(5));
   auto neg = [&]() -> double {
     switch (c.weighted({3, 2})) {
@@ -484,7 +484,7 @@ void genBetaShapes(vf::Ctx& c, double lo, double& a, double& b) {
 }
 }  // namespace
 
-LAW(B1_beta_cdf, RC, 150000, 4000000, 16, "a shape < 1, or x within 3 ulps of a branch switch of the Cephes algorithm, or tail probability < 1e-6") {
+LAW(B1_beta_cdf, RC, 150000, 4000000, 16, "a shape < 1, or x within 3 ulps of a branch switch of the Cephes algorithm, or tail probability < 1e-6", 120) {
   double a, b; genBetaShapes(c, 0.1, a, b);
   double x, x2; bool seeded = false;
   switch (c.weighted({4, 3, 3, 2, 1})) {
@@ -518,7 +518,7 @@ LAW(B1_beta_cdf, RC, 150000, 4000000, 16, "a shape < 1, or x within 3 ulps of a 
   }
 }
 
-LAW(B2_beta_identities, RC, 100000, 2500000, 16, "a shape < 1 or x outside [0.05,0.95]") {
+LAW(B2_beta_identities, RC, 100000, 2500000, 16, "a shape < 1 or x outside [0.05,0.95]", 120) {
   double a, b; genBetaShapes(c, 0.1, a, b);
   // x in [1/2,1[ so that 1-x is exact; the pair (x,1-x) is used in both roles
   double u;
@@ -553,7 +553,7 @@ LAW(B2_beta_identities, RC, 100000, 2500000, 16, "a shape < 1 or x outside [0.05
   CHECK(fabsl((LD)lb - lbr) <= 16 * EPS * scale + 4 * EPS, "lnBeta(" << vf::dec(a) << "," << vf::dec(b) << ") = " << vf::dec(lb) << " but lgammal gives " << static_cast<double>(lbr));
 }
 
-LAW(B3_qbeta, RC, 100000, 2500000, 16, "a shape < 1, or p < 1e-5 / p > 1-1e-5, or p within 4 ulps of 0.5 (tail swap), or the quantile within 1e-9 of 0 or 1") {
+LAW(B3_qbeta, RC, 100000, 2500000, 16, "a shape < 1, or p < 1e-5 / p > 1-1e-5, or p within 4 ulps of 0.5 (tail swap), or the quantile within 1e-9 of 0 or 1", 120) {
   double a, b; genBetaShapes(c, 0.3, a, b);
   PP pp = genProb(c, true);
   double p = pp.p;
@@ -580,7 +580,7 @@ LAW(B3_qbeta, RC, 100000, 2500000, 16, "a shape < 1, or p < 1e-5 / p > 1-1e-5, o
   }
 }
 
-LAW(B4_beta_signals, RC, 12000, 300000, 10, "every case (an argument outside the domain)") {
+LAW(B4_beta_signals, RC, 12000, 300000, 10, "every case (an argument outside the domain)", 120) {
   auto neg = [&]() -> double {
     switch (c.weighted({3, 2})) {
       case 0: { static const double N[] = {-1.0, -0.5, -1e-300, -1e6, -2.0, -5e-324}; return N[c.below(6)]; }
